@@ -68,6 +68,11 @@ CHECKS = {
     technique='runtime monitoring: histories of (edits; real update+save via library or CLI) from generated prior Manifest states, each completed round checked by an independent post-condition (reader + own walk + one-shot hashing) and a fresh verification; permuted os.walk order',
     text='From a generated tree with a prior Manifest state (exact, stale, duplicates, ghost entries, stale chains, unregistered valid/invalid/undecodable sub-Manifests, split Manifests in one directory, compressed, or none at all) 1..3 rounds of edits + update + save are run with random hash sets, sort/force/compression options and whole-tree or sub-directory scope. After every round that completed without error the independent post-condition (every in-scope regular file covered exactly once with true size and exactly the requested digests, no vanished entries, every Manifest in use referenced with true size/digests) and a fresh verification must hold.',
     note='Trusted: vf/model/update_post.py, vf/model/match.py. Nothing is claimed when update raised. Directories holding several Manifest-named files, and Manifests aliased through directory symlinks, are unconstrained (U14/U15). Known findings: value-equality list.remove in deduplication (asserted by an existing test, hence not fixable), stale chain above a sub-directory scope.'),
+ 'C12': dict(
+    category='exploration', design='3 C12',
+    technique='runtime monitoring: repeated real update with WriteAudit (sys.addaudithook) + byte/mtime_ns/inode snapshots for idempotence; replica comparison under permuted os.walk order and permuted previous entry order for canonical output',
+    text='idem: after a first update (library, CLI, CLI -t) a second one on the unchanged tree must produce no write-intent audit event and leave every Manifest with the same bytes, mtime_ns and inode. canon: 2..4 replicas of a tree whose previous Manifests list the same entries in different orders are updated with sort=True and forced rewrite under different directory enumeration orders; every Manifest file must be byte-identical across replicas (compressed bytes included).',
+    note='Forced rewrites are excluded from the idempotence half. Canonical half needs <= 1 Manifest per directory. Known finding (shared with C03): same-Manifest duplicate entries.'),
 }
 
 def main():
